@@ -344,7 +344,7 @@ def rule_e(ctx, out):
 def rule_f(ctx, out):
     """A contract's assembly survives parse -> serialise whatever optional parts it has.  build_asm_contract and AsmContract.to_asm_json
     (with the block builder, the item parser and the classes' own constructors, setters and methods) are interpreted on a family of
-    assembly dictionaries: sub-assemblies with and without .auxdata, with and without a nested .data, string-valued data entries, with
+    assembly dictionaries: sub-assemblies with and without .auxdata, with and without a nested .data (strings only, or a child assembly too), string-valued data entries, with
     and without sourceList, one or two sub-assemblies; the result must be the input again (and parsing must not raise)."""
     import itertools
     from ..core.interp import ModuleInterp
@@ -362,12 +362,15 @@ def rule_f(ctx, out):
               _rec("tag", "2"), _rec("JUMPDEST"), _rec("STOP")]
     code_b = [_rec("PUSH", "0"), _rec("DUP1"), _rec("REVERT")]
     n = 0
-    for aux, nested, address, srcs, two in itertools.product((False, True), (False, True), (False, True), (False, True), (False, True)):
+    for aux, nested, address, srcs, two in itertools.product((False, True), (0, 1, 2), (False, True), (False, True), (False, True)):
         sub = {".code": [dict(r) for r in code_a]}
         if aux:
             sub[".auxdata"] = "a264"
         if nested:
             sub[".data"] = {"A1B2": "6080"}
+        if nested == 2:
+            # the creation code of a child contract deployed from the run-time code: an assembly nested in the sub-assembly's .data
+            sub[".data"]["0"] = {".auxdata": "bb", ".code": [dict(r) for r in code_b]}
         data = {"0": sub}
         if two:
             data["1"] = {".auxdata": "ff", ".code": [dict(r) for r in code_b]}
@@ -376,7 +379,7 @@ def rule_f(ctx, out):
         doc = {".code": [dict(r) for r in code_b], ".data": data}
         if srcs:
             doc["sourceList"] = ["a.sol", "#utility.yul"]
-        label = ", ".join(k for k, v in (("no .auxdata", not aux), ("nested .data", nested), ("address entry", address), ("sourceList", srcs), ("two sub-assemblies", two)) if v) or "plain"
+        label = ", ".join(k for k, v in (("no .auxdata", not aux), ("nested .data", nested == 1), ("nested .data with a child assembly", nested == 2), ("address entry", address), ("sourceList", srcs), ("two sub-assemblies", two)) if v) or "plain"
         import copy
         try:
             contract = mi.call(bc, "dir/file.sol:Name", copy.deepcopy(doc))
